@@ -737,6 +737,11 @@ def run(ctx):
             return rc
         for ent in pick_mols(ctx, pool, rc, k):
             check_pair(ctx, rc, ent, requests)
+        # the same pair with the hydrogens left implicit: always where the pattern may have more atoms than the molecule has
+        # heavy atoms (a size shortcut taken before the hydrogens are added shows there), elsewhere on a sample
+        small = [e for e in rc.pairs if e['mol'].GetNumAtoms() <= 2]
+        for e in small[:4]:
+            check_implicit(ctx, rc, e)
         if rc.pairs and rng.random() < 0.3:
             check_implicit(ctx, rc, rng.choice(rc.pairs))
         return rc
